@@ -49,7 +49,7 @@ def step_from(rng, node, zero_p):
 
 def grow(rng, parent, typ, depth, budget, cfg):
     """append one unbranched run of points below `parent`, then stop / branch / change type"""
-    npts = int(rng.integers(6, 21)) if rng.random() < cfg["long_p"] else int(rng.integers(1, 6))
+    npts = int(rng.integers(*cfg.get("long_range", (6, 21)))) if rng.random() < cfg["long_p"] else int(rng.integers(1, 6))
     zero_p = 1.0 if rng.random() < cfg["zero_section_p"] else cfg["zero_p"]
     node = parent
     for _ in range(npts):
@@ -70,8 +70,10 @@ def grow(rng, parent, typ, depth, budget, cfg):
             grow(rng, node, typ if rng.random() < 0.85 else rand_type(rng), depth + 1, budget, cfg)
 
 
-def gen_tree(rng):
+def gen_tree(rng, long=False):
     cfg = dict(long_p=0.08, zero_p=0.08, zero_section_p=0.04, max_depth=int(rng.integers(1, 5)))
+    if long:     # long, densely traced sections (25-60 points): with a small max_branch_len the reader's cap of 10 pieces is reached
+        cfg.update(long_p=0.5, long_range=(25, 60), zero_p=0.02, zero_section_p=0.0)
     kind = str(rng.choice(["single", "chain", "star"], p=[0.45, 0.35, 0.2]))
     root = Node(1, np.round(rng.normal(size=3) * 5, 3), float(np.round(rng.uniform(3, 10), 3)))
     soma = [root]
@@ -81,7 +83,7 @@ def gen_tree(rng):
             s = Node(1, step_from(rng, par, 0.05), float(np.round(rng.uniform(3, 10), 3)))
             par.kids.append(s)
             soma.append(s)
-    budget = [int(rng.integers(3, 70))]
+    budget = [int(rng.integers(3, 70)) if not long else int(rng.integers(80, 200))]
     for _ in range(int(rng.integers(1, 5))):
         grow(rng, soma[int(rng.integers(0, len(soma)))], rand_type(rng), 0, budget, cfg)
     if not any(k.type != 1 for s in soma for k in s.kids):   # at least one neurite point
